@@ -4,7 +4,7 @@ import re
 from ..facts import walk, strip, strip_casts, lv, show, writes, calls, int_value, root_var
 from ..flow import MustFacts, cond_atoms, rel_facts
 from ..q import call_sites, const_eval, Site
-from ..absw import AbsWalk
+from ..absw import AbsWalk, eval_in
 from ..snapshot import AnalysisBroken
 
 FAMILY = ("bituint31_t", "bituint63_t", "bitint31_t", "bitint63_t", "bitint383_t", "bitint447_t")
@@ -897,3 +897,73 @@ def r19_6(prog, rep, rid="R19.6"):
             rep.ok(rid, key, f.loc(), "scratch copy and re-insertion cover all %d native slots of %s" % (cap, ty))
     if n < 10:
         rep.broken_("rule=%s expected >=10 instances, found %d" % (rid, n))
+
+
+def r19_12(prog, rep, rid="R19.12"):
+    """The unsigned iterators leave the cursor one beyond the member they have just handed out, in both representations (one stored
+    number / bitset).  Callers rely on it: the monthly filler reads the month off the cursor (`cursor - 1`) when it checks that
+    INTERVAL can meet BYMONTH at all — with another cursor that check passes for months that are never reached and the month walk
+    behind it, which has no fuel, never ends.  bui31_next()/bui63_next() are walked over single values and two-member sets."""
+    # callers that read a cursor as a number
+    readers = []
+    for f in prog.all_fns():
+        if not f.cfg or f.file.endswith("bitint.h"):
+            continue
+        its = set()
+        for b, i, x, line in f.cfg.all_elems():
+            if isinstance(x, dict):
+                for c in calls(x):
+                    if (c.get("fn") or "").startswith("bui") and (c.get("fn") or "").endswith("_next") and c.get("a"):
+                        a0 = strip_casts(f.cfg.resolve(c["a"][0]))
+                        if a0.get("k") == "un" and a0["op"] == "&":
+                            its.add((lv(a0["e"]), c["fn"]))
+        for b, i, x, line in f.cfg.all_elems():
+            if isinstance(x, dict):
+                for q in walk(x):
+                    if q.get("k") == "bin" and q["op"] in ("-", "+") and int_value(strip_casts(q["r"])) is not None:
+                        for it, fn_ in its:
+                            if lv(strip_casts(q["l"])) == it:
+                                readers.append((f.name, it, fn_, q.get("line", line)))
+    for name, width in (("bui31_next", 31), ("bui63_next", 63)):
+        f = prog.fn(name)
+        it, bi = f.params[0]["n"], f.params[1]["n"]
+        key = "%s/cursor-is-member-plus-one" % name
+        who = sorted({r_[0] for r_ in readers if r_[2] == name})
+        members = [0, 1, 5, 12, width - 1]
+        sets = [(0, 1), (1, 12), (3, width - 1), (0, width - 1)]
+        bad = []
+        n = 0
+
+        def call1(bival, cur):
+            outs = []
+
+            def effect(b, i, x, store):
+                if isinstance(x, dict) and x.get("k") == "ret" and x.get("e") is not None:
+                    outs.append((eval_in(store, f.cfg.resolve(x["e"]), f), store.get("*" + it)))
+                return None
+            AbsWalk(f, {"*" + it, bi} | {l_["n"] for l_ in f.locals}, init={"*" + it: cur, bi: bival}, effect=effect, max_states=20000).run()
+            if len(set(outs)) != 1 or None in outs[0]:
+                raise AnalysisBroken("%s(bi=%#x, cursor=%d): no single outcome (%s)" % (name, bival, cur, outs[:2]))
+            return outs[0]
+        for v in members:
+            n += 1
+            r, c = call1((v << 1) | 1, 0)
+            if r != v or c != v + 1:
+                bad.append("the stored number %d is handed out as %d with the cursor at %d" % (v, r, c))
+                continue
+            r2, c2 = call1((v << 1) | 1, c)
+            if c2 != 0:
+                bad.append("after the stored number %d the iteration does not end (cursor %d)" % (v, c2))
+        for a, b_ in sets:
+            n += 1
+            word = (1 << (a + 1)) | (1 << (b_ + 1))
+            r, c = call1(word, 0)
+            r2, c2 = call1(word, c) if c else (None, None)
+            r3, c3 = call1(word, c2) if c2 else (None, 0)
+            if (r, c, r2, c2, c3) != (a, a + 1, b_, b_ + 1, 0):
+                bad.append("the set {%d, %d} is iterated as %s/%s with cursors %s, %s, %s" % (a, b_, r, r2, c, c2, c3))
+        if bad:
+            rep.fail(rid, key, f.loc(), "%s%s" % ("; ".join(bad[:3]), (": %s reads the member off the cursor" % ", ".join(who)) if who else ""))
+        else:
+            rep.ok(rid, key, f.loc(), "%d single values and sets: the cursor is the member + 1 and ends at 0%s" % (
+                n, (" (read as such by %s)" % ", ".join(who)) if who else ""))
